@@ -155,6 +155,7 @@ def build(rc: RuleCtx, qual: str, bind: Optional[Dict[str, Any]] = None, allow_b
         if isinstance(v, Vec) and v.kind == "list":
             benv[nme] = ev.symbol(nme + "@list")
     try:
+        ev.fresh = 0                      # fresh names inside one step are numbered from the same origin in every model (they are compared across models)
         out = ev.eval_loop_body(fi, loop, benv)
     except Unsupported as e:
         raise AnalysisError(f"{qual}: loop body not modelled: {e}")
